@@ -23,11 +23,15 @@ FillT(n) == [i \in 1..n |-> 97 + (i % 26)]
 BadUtf8 == { <<128>>, <<192,128>>, <<237,160,128>>, <<226,130>>, <<245,128,128,128>>, <<97,255>>, <<224,159,191>> }
 GoodUtf8 == { <<239,191,189>>, <<97,239,191,189,98>>, <<195,169>>, <<226,130,172>>, <<240,159,140,144>>, <<237,159,191>>, <<244,143,191,191>> }
 
+\* keys 8..12: pairs of DISTINCT keys that some notion of "similar" would conflate: letter case ("A" / "a", also as
+\* the argument bytes of uint 65 / 97 and of a one-byte byte string next to a text string) and bytes that are not UTF-8
 Keys == << EncUint(U64(0)), EncUint(U64(24)), EncText(<<97>>), EncText(<<98>>), EncText(<<97,97>>),
-           EncBytes(<<>>), EncBytes(<<97>>) >>
+           EncBytes(<<>>), EncBytes(<<97>>),
+           EncText(<<65>>), EncUint(U64(65)), EncUint(U64(97)), EncBytes(<<128>>), EncBytes(<<129>>) >>
 Vals == << EncUint(U64(1)), EncText(<<120>>), EncBytes(FillB(24)), EncUint(U64(256)),
            EncMap(<< [k |-> EncText(<<98>>), v |-> EncUint(U64(2))], [k |-> EncText(<<97>>), v |-> EncUint(U64(1))] >>),
-           EncArrayHdr(0), EncBool(TRUE) >>
+           EncArrayHdr(0), EncBool(TRUE),
+           EncUint(U64(8)), EncUint(U64(9)), EncUint(U64(10)), EncUint(U64(11)), EncUint(U64(12)) >>
 Entry(i) == [k |-> Keys[i], v |-> Vals[i]]
 KeySeqs(K, n) == UNION { [1..m -> K] : m \in 0..n }
 MapCalls(K, n) == { C("map", U64Zero, FALSE, <<>>, FALSE, [j \in 1..Len(q) |-> Entry(q[j])]) : q \in KeySeqs(K, n) }
@@ -41,7 +45,7 @@ Universe(name) ==
   \cup { C("text", U64Zero, FALSE, s, FALSE, <<>>) : s \in BadUtf8 \cup GoodUtf8 }
   \cup { C("arr", a, FALSE, <<>>, FALSE, <<>>) : a \in { U64(0), U64(1), U64(23), U64(24), U64(255), U64(256), U64(65535), U64(65536), U64(2147483647) } }
   \cup { C("bool", U64Zero, FALSE, <<>>, b, <<>>) : b \in BOOLEAN }
-  \cup MapCalls(1..7, 3)
+  \cup MapCalls(1..7, 3) \cup MapCalls({3, 8}, 2) \cup MapCalls({9, 10}, 2) \cup MapCalls({11, 12}, 2) \cup MapCalls({7, 3, 8}, 3)
   ELSE IF name = "medium" THEN
        { C("uint", a, FALSE, <<>>, FALSE, <<>>) : a \in Base }
   \cup { C("int", a, TRUE, <<>>, FALSE, <<>>) : a \in { x \in Base : x[1] < 128 } }
